@@ -167,6 +167,7 @@ def run(chk: Check) -> None:
     run_no_inplace_hash_mutation(chk, ix)
     run_whole_component_equality(chk, ix)
     run_literal_contraction_by_values(chk, ix)
+    run_callback_protocol_unpacking(chk, ix)
 
     # ---------------- R08.2
     r2 = chk.rule("R08.2", "for every Type subclass the attributes hashed by __hash__ are compared by __eq__ (equal values hash equal; the memo never misses or conflates because of an uncompared hashed field)", floor=15)
@@ -510,3 +511,85 @@ def run_literal_contraction_by_values(chk: Check, ix) -> None:
         r.ok(key, f.loc(trig), f"`{norm(trig.test)}` reads {sorted(names & value_fed)}, which is updated with the literal's value")
     else:
         r.violation(key, f.loc(trig), f"`{norm(trig.test)}` reads {sorted(names)}, none of which is updated with `typ.value`: the decision counts literals instead of tracking which members were seen, so a repeated literal stands in for a missing member (`Literal[True, True]` contracts to bool)")
+
+
+class _NoEval(Exception):
+    pass
+
+
+def _eval_members_test(e: ast.expr, members: list[str]):
+    """Evaluate a test over `<x>.protocol_members` for one sample member list."""
+    if isinstance(e, ast.Constant):
+        return e.value
+    if isinstance(e, ast.Attribute) and e.attr == "protocol_members":
+        return list(members)
+    if isinstance(e, ast.Attribute) and e.attr == "is_protocol":
+        return True
+    if isinstance(e, (ast.List, ast.Tuple, ast.Set)):
+        vals = [_eval_members_test(x, members) for x in e.elts]
+        return vals if isinstance(e, ast.List) else tuple(vals) if isinstance(e, ast.Tuple) else set(vals)
+    if isinstance(e, ast.Call) and isinstance(e.func, ast.Name) and e.func.id in ("len", "set", "list", "sorted", "tuple") and len(e.args) == 1:
+        return {"len": len, "set": set, "list": list, "sorted": sorted, "tuple": tuple}[e.func.id](_eval_members_test(e.args[0], members))
+    if isinstance(e, ast.Subscript):
+        base = _eval_members_test(e.value, members)
+        sl = e.slice
+        try:
+            if isinstance(sl, ast.Slice):
+                lo, hi = (None if b is None else _eval_members_test(b, members) for b in (sl.lower, sl.upper))
+                return base[lo:hi]
+            return base[_eval_members_test(sl, members)]
+        except (IndexError, KeyError, TypeError):
+            return None
+    if isinstance(e, ast.UnaryOp) and isinstance(e.op, ast.USub):
+        return -_eval_members_test(e.operand, members)
+    if isinstance(e, ast.UnaryOp) and isinstance(e.op, ast.Not):
+        return not _eval_members_test(e.operand, members)
+    if isinstance(e, ast.BoolOp):
+        vals = [_eval_members_test(v, members) for v in e.values]
+        return all(vals) if isinstance(e.op, ast.And) else any(vals)
+    if isinstance(e, ast.Compare) and len(e.ops) == 1:
+        a, b = _eval_members_test(e.left, members), _eval_members_test(e.comparators[0], members)
+        o = e.ops[0]
+        if isinstance(o, ast.Eq):
+            return a == b
+        if isinstance(o, ast.NotEq):
+            return a != b
+        if isinstance(o, ast.In):
+            return a in b
+        if isinstance(o, ast.NotIn):
+            return a not in b
+    raise _NoEval(ast.unparse(e)[:60])
+
+
+def run_callback_protocol_unpacking(chk: Check, ix) -> None:
+    """R08.10: join/meet replace a protocol by its __call__ type only when __call__ is its only member."""
+    from ..cfg import branch_conditions
+    r10 = chk.rule("R08.10", "join.py / meet.py treat a callback protocol as the callable type of its `__call__` (find_member('__call__', t, ...) returned in place of the Instance). A protocol with further members is a strict subtype of that callable, so computing meet(P, c) on the unpacked type yields a callable that lacks the other members and is not a subtype of P (meet law), and join loses them silently. The test guarding each such replacement is evaluated over sample member lists: it holds for ['__call__'] and fails for ['__call__', 'x'], ['x'] and []", floor=1)
+    samples = (["__call__"], ["__call__", "retries"], ["retries", "__call__"], ["retries"], [])
+    n = 0
+    for mn in ("mypy.join", "mypy.meet"):
+        m = ix.module(mn)
+        for f in list(m.functions.values()) + [mm for c in m.classes.values() for mm in c.methods.values()]:
+            par = None
+            for r in ast.walk(f.node):
+                if not (isinstance(r, ast.Return) and r.value is not None and any(isinstance(c, ast.Call) and call_name(c) == "find_member" and c.args and isinstance(c.args[0], ast.Constant) and c.args[0].value == "__call__" for c in ast.walk(r.value))):
+                    continue
+                par = par or f.module.parents()
+                pos, neg = branch_conditions(par, f.node, r)
+                tests = [t for t in pos if "protocol_members" in norm(t)]
+                n += 1
+                key = f"{mn.removeprefix('mypy.')}.{f.name}: a protocol is replaced by its __call__ type only if that is its only member"
+                if not tests:
+                    r10.violation(key, f.loc(r), "the replacement is not guarded by any test of `protocol_members`")
+                    continue
+                try:
+                    verdicts = {tuple(sm): all(bool(_eval_members_test(t, sm)) for t in tests) for sm in samples}
+                except _NoEval as e:
+                    raise AnalysisError(f"{f.qualname}: cannot evaluate the guard `{e}` over sample member lists")
+                wrong = [list(k) for k, v in verdicts.items() if v != (list(k) == ["__call__"])]
+                if not wrong:
+                    r10.ok(key, f.loc(r))
+                else:
+                    r10.violation(key, f.loc(r), f"guard `{' and '.join(norm(t) for t in tests)[:90]}` gives the wrong answer for member lists {wrong}: a protocol with `__call__` and other members is unpacked, and meet(P, Callable[...]) becomes a plain callable that is not a subtype of P")
+    if n < 1:
+        raise AnalysisError("join.py / meet.py: no replacement of a protocol by find_member('__call__', ...) found")
